@@ -33,7 +33,7 @@
 (* symbol lengths 3..8 (st.feeq, so a change of the float formula shows as *)
 (* drift), and the genesis operators ExportG / ValidateG / ImportG.        *)
 (***************************************************************************)
-EXTENDS Integers, Sequences, FiniteSets, TLC, Util, Json, IOUtils, TokenMath
+EXTENDS Integers, Sequences, FiniteSets, TLC, Util, Json, IOUtils, TokenMath, CapClauses
 
 CONSTANTS
   Users,        \* user accounts (strings)
@@ -460,22 +460,28 @@ C09_Authority(s, e, t) ==
 
 (* C09: circulating amount <= max * 10^scale through issue/mint/edit/burn;
    the maximum is never lowered below what circulates *)
-CapOK(x, y) == x.supply[x.tok[y].minUnit] <= x.tok[y].max * Pow10(x.tok[y].scale)
+(* the arithmetic is stated once, in CapClauses.tla (shared with the big-number
+   tier, where Z3 evaluates it on max supplies up to MaxUint64) *)
+CircOf(x, y) == x.supply[x.tok[y].minUnit]
+WOf(x, y) == Pow10(x.tok[y].scale)
+CapOK(x, y) == CapW(CircOf(x, y), x.tok[y].max, WOf(x, y))
 
 C09_Cap(s, e, t) ==
   /\ (e.name \in C09Msgs) =>
-       \A y \in DOMAIN t.tok : ((y \in DOMAIN s.tok) => CapOK(s, y)) => CapOK(t, y)
-  /\ (e.name = "Edit" /\ e.ok /\ e.max > 0) => CapOK(t, e.sym)
+       \A y \in DOMAIN t.tok :
+         IF y \in DOMAIN s.tok
+         THEN CapKeptW(CircOf(s, y), s.tok[y].max, CircOf(t, y), t.tok[y].max, WOf(t, y))
+         ELSE CapOK(t, y)
+  /\ (e.name = "Edit" /\ e.sym \in DOMAIN t.tok) =>
+       EditMaxW(e.ok, e.max, t.tok[e.sym].max, WOf(t, e.sym), CircOf(t, e.sym))
 
 (* C09: burned amounts are tallied exactly *)
 C09_Burned(s, e, t) ==
   /\ (e.name = "Burn" /\ e.ok) =>
-       /\ Amt(t.burned, e.mu) - Amt(s.burned, e.mu) = e.amt
-       /\ s.supply[e.mu] - t.supply[e.mu] = e.amt
-       /\ s.bal[e.who][e.mu] - t.bal[e.who][e.mu] = e.amt
+       BurnExactW(e.amt, Amt(s.burned, e.mu), Amt(t.burned, e.mu),
+                  s.supply[e.mu], t.supply[e.mu], s.bal[e.who][e.mu], t.bal[e.who][e.mu])
   /\ \A m \in DOMAIN s.burned \cup DOMAIN t.burned :
-       /\ Amt(t.burned, m) >= Amt(s.burned, m)
-       /\ (Amt(t.burned, m) # Amt(s.burned, m)) => (e.name = "Burn" /\ e.ok /\ e.mu = m)
+       TallyW(Amt(s.burned, m), Amt(t.burned, m), e.name = "Burn" /\ e.ok /\ e.mu = m)
 
 (* C09: the issue/mint fee F (e.fee, the chain's own quote) is charged to the
    owner and split between the fee pool (the tax share, either rounding) and
